@@ -25,12 +25,17 @@ var headerPool = sync.Pool{
 
 // AcquireHeaderField gets HeaderField from the pool.
 func AcquireHeaderField() *HeaderField {
+	if verifEnabled {
+		return verifAcquireHeaderField()
+	}
+
 	return headerPool.Get().(*HeaderField)
 }
 
 // ReleaseHeaderField puts HeaderField to the pool.
 func ReleaseHeaderField(hf *HeaderField) {
 	hf.Reset()
+	verifPool(verifPoolHeaderField, false, hf)
 	headerPool.Put(hf)
 }
 
